@@ -122,6 +122,18 @@ func useLoop(l *s2.Loop, pts []s2.Point, cells []s2.Cell) Ans {
 		e := l.Edge(i)
 		a = append(a, f64(e.V0.X)^f64(e.V1.Z))
 	}
+	for c := 0; c < l.NumChains(); c++ {
+		ch := l.Chain(c)
+		a = append(a, uint64(ch.Start), uint64(ch.Length))
+		if ch.Length > 0 {
+			e := l.ChainEdge(c, 0)
+			a = append(a, f64(e.V0.Y))
+		}
+	}
+	if n > 0 {
+		cp := l.ChainPosition(n - 1)
+		a = append(a, uint64(cp.ChainID), uint64(cp.Offset))
+	}
 	for _, p := range pts {
 		a = append(a, b2u(l.ContainsPoint(p)))
 	}
@@ -155,6 +167,18 @@ func usePolygon(p *s2.Polygon, pts []s2.Point, cells []s2.Cell) Ans {
 		a = append(a, uint64(p.Loop(i).NumVertices()), b2u(p.Loop(i).IsHole()))
 		_, _ = p.Parent(i)
 		_ = p.LastDescendant(i)
+	}
+	for c := 0; c < p.NumChains() && c < 200; c++ {
+		ch := p.Chain(c)
+		a = append(a, uint64(ch.Start), uint64(ch.Length))
+		if ch.Length > 0 {
+			e := p.ChainEdge(c, 0)
+			a = append(a, f64(e.V0.Y))
+		}
+	}
+	for i := 0; i < n && i < useEdgeCap; i += 1 + n/16 {
+		cp := p.ChainPosition(i)
+		a = append(a, uint64(cp.ChainID), uint64(cp.Offset))
 	}
 	for _, q := range pts {
 		a = append(a, b2u(p.ContainsPoint(q)))
